@@ -62,7 +62,10 @@ def one_case(args):
     exe, wd, seed, case, tier = args
     rng = rng_for(seed, case)
     out = dict(case=case, viol=None, compared=0, nontrivial=0, skipped_gate=0, key=None, sample=None, inproc=0)
-    s = gen.generate(rng.getrandbits(40), n_links=rng.choice([2, 3, 4, 6]), hbfs=rng.choice([2, 3]))
+    mode = rng.choice(["all", "all_its", "all_its", "all_its_stave", "all_its_stave", "sanity_its"])
+    # in stave mode validators are per FEE id, so several FEE ids may sit behind one link id
+    s = gen.generate(rng.getrandbits(40), n_links=rng.choice([2, 3, 4, 6]), hbfs=rng.choice([2, 3]),
+                     shared_link_ids=(mode == "all_its_stave" and rng.random() < 0.5), merge=rng.choice(["roundrobin", "random", "hbf", "contiguous"]))
     nm = rng.choice([0, 1, 2, 4, 10])
     muts = []
     for _ in range(nm):
@@ -77,7 +80,6 @@ def one_case(args):
         muts.append(m)
     if any(p.f.get("system_id", 32) != 32 for lp in s.pkts for p in lp):
         return out
-    mode = rng.choice(["all", "all_its", "all_its", "all_its_stave", "all_its_stave", "sanity_its"])
     margs = obs.MODES[mode]
     desc = "%d links, %d packets, %d mutations %s, check %s" % (len(s.links), sum(len(x) for x in s.pkts), nm, muts[:3], mode)
     out["sample"] = desc
